@@ -137,6 +137,11 @@ def report(prop, tier, seed, outs, wall, level, explanation, extra_assumptions, 
         for f in o.findings:
             k = evidence.match_known(prop, f, known)
             (known_hits if k else violations).append((f, k))
+    if os.environ.get('VERIF_DUMP_FINDINGS'):
+        import json as _json
+        with open(os.environ['VERIF_DUMP_FINDINGS'], 'w') as _f:
+            _json.dump({'violations': [f for f, _k in violations], 'known': [dict(f, known=k['what'][:60]) for f, k in known_hits],
+                        'inconclusive': [list(map(str, i)) for i in inconclusive]}, _f, indent=1, default=str)
     seen = set()
     for f, k in known_hits:
         if k['what'] not in seen:
@@ -261,6 +266,30 @@ def run_x_only(prop, tier, seed, jobs, specs, explanation, funcs, assumptions=()
     })
     extra['wall'] = 0.0
     return report(prop, tier, seed, [], time.time() - t0, 'other', explanation, list(assumptions), funcs, None, extra)
+
+
+def _c08(prop, tier, seed, jobs, limit):
+    from .xh import c08x
+    return run_x_only(
+        prop, tier, seed, jobs, c08x.specs(tier, seed),
+        'CrossHair drives the real decorated callable and the undecorated original with the same pair of symbolic scripts: '
+        'an inner script (what the scripted generator / asynchronous generator / coroutine does: yield or suspend with a payload, '
+        'return a value, raise a user exception; thrown-in user exceptions are swallowed at a yield) and a driver script (next / '
+        'send(v) / throw(E(v)) / close, their asynchronous forms, stepping and throwing into a suspended coroutine). After every '
+        'operation the caller-visible outcome (yielded value, StopIteration value, exception class and arguments, kind of the '
+        'produced object) and the body-visible events (values sent in, exceptions caught, GeneratorExit, finalisation) are '
+        'recorded; the postcondition is equality of both traces, except that a coroutine result violating the return annotation '
+        'must surface as the configured return violation; inspect.iscoroutinefunction / isgeneratorfunction / isasyncgenfunction '
+        'must agree. Coroutines and asynchronous generators are stepped by hand (no event loop).',
+        ['beartype._decor._nontype._wrap.wrapmain', 'beartype._decor._nontype._wrap._wrapreturn',
+         'beartype._data.code.datacodefunc', 'beartype._decor._nontype.decornontype'],
+        assumptions=['bounds: inner script of 2 (thorough: up to 3) actions, driver script of 2 (thorough: up to 3) operations plus a final '
+                     'close, payloads ints in [-1, 3] (3 stands for a non-int return value); longer histories are outside the claim',
+                     'the scripted original does not yield while handling GeneratorExit (the property\'s proviso), catches only its own '
+                     'user exception at yields, and has one int parameter passed positionally',
+                     'return annotations: Generator[int, int, int], AsyncGenerator[int, int], int; other annotations (and yielded-value '
+                     'checking, which beartype does not perform) are outside',
+                     'real event loops, task cancellation and asynchronous context managers are outside'])
 
 
 def _c17(prop, tier, seed, jobs, limit):
@@ -477,6 +506,7 @@ def _c04(prop, tier, seed, jobs, limit):
 
 RUNNERS = {
     'C04': _c04,
+    'C08': _c08,
     'C12': _c12,
     'C13': _c13,
     'C14': _c14,
